@@ -903,7 +903,8 @@ class C14(Base):
         s3 = lines + c14_packets(r.fork(4), toks, per)
         return [Stream("S1-parser-mutations", s1, fields={"pure": ["_"]}, oracle=c14_oracle),
                 Stream("S3-malformed-packets", s3, fields={"recv": ["ack", "src"]}, oracle=c14_oracle),
-                Stream("S3-model-branches", model_branch_lines(toks), fields={"recv": ["ack", "src", "bal", "mv", "st"], "query": ["res", "out"], "genload": ["res", "st"], "export": ["st"]}, oracle=c14_oracle)]
+                Stream("S3-model-branches", model_branch_lines(toks), fields={"recv": ["ack", "src", "bal", "mv", "st"], "query": ["res", "out"], "genload": ["res", "st"], "export": ["st"]}, oracle=c14_oracle)] + \
+            shared_streams(seed, toks, tier, {"recv": ["ack", "src"], "recvh": ["ack", "src"], "msg": ["res"], "query": ["res"]}, c14_oracle, skip=("spellings",))
 
 
 # ----------------------------------------------------------------------------------------------- C02
